@@ -17,7 +17,7 @@ import sys
 
 import numpy as np
 
-from .. import gen, paths, tape as tp, tapedfs
+from .. import gen, paths, tape as tp, tapedfs, cbuild
 from ..common import call, Raised, short
 from ..ref import poly as rp, metropolis as mp
 from ..runner import Stats, pmap, NWORKERS, HarnessError
@@ -25,14 +25,17 @@ from ..runner import Stats, pmap, NWORKERS, HarnessError
 ID = "C12"
 META = {
     "engine": "tapedfs",
-    "technique": "stateless DFS over ALL answers of a scripted RNG linked into the real C kernels (exact output distribution by path weights) vs reference Metropolis chain; exhaustive zero-temperature grid; seed-replay on the stock build",
+    "technique": "stateless DFS over ALL answers of a scripted RNG linked into the real C kernels (exact output distribution by path weights) vs reference Metropolis chain; exhaustive zero-temperature grid; exhaustive enumeration of the generator seam over all 2^32 words; seed-replay on the stock build",
     "text": "The kernels are rebuilt from /repo with the vendored PCG replaced at link time by a tape; every random draw is a choice point. For quadratic and cubic models on 2-3 spins, every "
             "initial state, schedules [T]*k and [T1,T2] (k*N <= 6 in order, <= 4 random order, T in {1,2}) ALL tapes are enumerated (random words cut at every acceptance threshold the reference "
             "can predict plus 1/2, two probes per interval), giving the implementation's exact final-state distribution, which must match the reference chain to 1e-7. Zero temperature: all 5^6 "
             "quadratic QUSOMatrix models over 3 spins (and relabelled QUSO/QUBO forms, cubic models) x all initial states: value never increases and equals the reference descent when no tie "
-            "occurs; all random visiting tapes. Reproducibility on the stock build for 4 seeds in-process and across processes.",
+            "occurs; all random visiting tapes. Reproducibility on the stock build for 4 seeds in-process and across processes. Generator seam: REPO's random.c is linked against a "
+            "generator whose first word is an argument; rand_int(rng, N) (N in {2,3,4,5,8} quick / 2..16 thorough) and rand_double are evaluated for ALL 2^32 words: in range, every site "
+            "with probability 1/N +- 1e-8, rand_double = word * 2^-32 (the assumption behind the cut menus).",
     "note": "The distributional claim is exact conditional on the vendored pcg_basic.c delivering uniform words / unbiased bounded integers (its rejection loop is bypassed by the shim). "
-            "No draw discipline is assumed in part 1. Bounded: <=3 spins, <=6 update steps.",
+            "Part 1 cuts words at acceptance thresholds only; a kernel that draws its sites from a raw word is enumerated twice with different probes and decided only if both agree "
+            "(else counted undecided; the seam part decides the site law). Bounded: <=3 spins, <=6 update steps.",
 }
 
 TOL = 1e-7
@@ -123,7 +126,7 @@ def dist_cases(tier):
                     yield {"part": "dist", "model": nm, "in_order": in_order, "Ts": Ts, "start": start}
 
 
-def check_dist(case, st):
+def check_dist(case, st, max_runs=5_000_000):
     kind, cont, M, DL, deg2 = build_model(case["model"])
     spin = kind == "spin"
     labels = visiting_labels(kind, cont, M, deg2)
@@ -154,7 +157,28 @@ def check_dist(case, st):
             a |= int(bit) << idx[l]
         return a
 
-    dist, runs, leaves, cps = tapedfs.enumerate_all(fn, lambda i, log, prefix: menu, outcome)
+    deviated = [False]
+
+    def word_menu(i, log, prefix):
+        if not case["in_order"] and not deviated[0]:
+            r = simulate(E, N, start, Ts, False, prefix)
+            if r[0] != "word":
+                deviated[0] = True
+        return menu
+
+    dist, runs, leaves, cps = tapedfs.enumerate_all(fn, word_menu, outcome, max_runs=max_runs)
+    if deviated[0]:
+        # A random word is requested where the textbook discipline draws a site with boundedrand: the kernel may map that word
+        # to a site in a way whose breakpoints are not in the cut set, so one representative per interval need not be exact.
+        # Decide only if a second enumeration with different representatives of the same intervals gives the same distribution.
+        menu_b = tapedfs.cuts_to_menu(cuts, alt=True)
+        dist_b, runs_b, _l, _c = tapedfs.enumerate_all(fn, lambda i, log, prefix: menu_b, outcome, max_runs=max_runs)
+        runs += runs_b
+        keys = set(dist) | set(dist_b)
+        if any(abs(dist.get(k, 0.0) - dist_b.get(k, 0.0)) > TOL for k in keys):
+            st.outcomes["dist: site chosen from a random word with breakpoints outside the cut set -> undecided here (see seam part)"] += 1
+            st.traces += runs
+            return
     st.traces += runs
     st.transitions += cps
     st.states += leaves - 1
@@ -365,7 +389,13 @@ def check_distlocal(case, st):
         # the local menu is only sound under the textbook draw discipline: redo this configuration with the global cut set,
         # which assumes nothing about when the implementation draws
         st.outcomes["distlocal: discipline deviation -> re-checked with the global menu"] += 1
-        return check_dist(dict(case, part="dist"), st)
+        try:
+            return check_dist(dict(case, part="dist"), st, max_runs=200_000)
+        except tapedfs.TooManyRuns:
+            # too deep for the assumption-free menu: this configuration stays undecided here (the shallower schedules of the
+            # global part are enumerated without any assumption on the draw discipline)
+            st.outcomes["distlocal: discipline deviation, too deep for the global menu -> undecided"] += 1
+            return
     ref = mp.final_distribution(E, N, start, Ts, case["in_order"])
     got = np.zeros(1 << N)
     for a, p in dist.items():
@@ -485,14 +515,18 @@ def check_zero_random(case, st):
                 res, log = tp.run(list(order), fn)
                 st.traces += 1
                 st.transitions += 1
-                if [k for k, b in log] != [1] * (nsweeps * N) or any(b != N for k, b in log):
-                    st.violation("zero-temp-random|draw-pattern|%s" % f.__name__, dict(case, start=start, order=list(order)),
-                                 "C12 %s random order at T=0: expected %d site draws with bound %d, request log %r" % (f.__name__, nsweeps * N, N, log))
-                    continue
                 a = 0
                 for l, v in res[0].state.items():
                     bit = (1 - v) // 2 if spin else v
                     a |= int(bit) << idx[l]
+                if [k for k, b in log] != [1] * (nsweeps * N) or any(b != N for k, b in log):
+                    # the kernel does not pick sites with one bounded draw each: the tape no longer encodes the visiting order, so
+                    # only the order-independent claim is decided here (the law of the site choice is decided by the seam part)
+                    st.outcomes["zero-random: site draws not of the form boundedrand(N) -> visiting order undecided, monotonicity only"] += 1
+                    if E[a] > E[start] + 1e-12:
+                        st.violation("zero-temp-random|energy-increased|%s" % f.__name__, dict(case, start=start, order=list(order)),
+                                     "C12 %s at T=0 random order (tape %r) from %r: value increased %r -> %r" % (f.__name__, order, init, E[start], E[a]))
+                    continue
                 want, tie = mp.zero_temp_sweeps(E, N, start, nsweeps, order=list(order))
                 if E[a] > E[start] + 1e-12:
                     st.violation("zero-temp-random|energy-increased|%s" % f.__name__, dict(case, start=start, order=list(order)),
@@ -592,8 +626,108 @@ def check_repro(case, st):
         st.nontrivial += 1
 
 
+# ------------------------------------------------------------------ the generator seam, all 2^32 words
+
+def _seam_run(args, chunks=8):
+    exe = cbuild.build_randseam()
+    W = 1 << 32
+    edges = [W * i // chunks for i in range(chunks + 1)]
+    procs = [subprocess.Popen([exe] + args + [str(lo), str(hi)], stdout=subprocess.PIPE, stderr=subprocess.PIPE, text=True)
+             for lo, hi in zip(edges[:-1], edges[1:])]
+    outs = []
+    for pr in procs:
+        o, e = pr.communicate()
+        if pr.returncode != 0:
+            raise HarnessError("randseam %r failed (%d): %s" % (args, pr.returncode, e[-1000:]))
+        outs.append(json.loads(o))
+    return outs
+
+
+def _seam_probe(N):
+    """First random request of a random-order zero-temperature sweep of both kernels on an N-spin chain (scripted build)."""
+    qv = paths.import_qubovert()
+    s = sim()
+    out = []
+    for f, M in ((s.anneal_quso, qv.utils.QUSOMatrix({(i, i + 1): 1 for i in range(N - 1)})),
+                 (s.anneal_puso, qv.utils.PUSOMatrix({**{(i, i + 1): 1 for i in range(N - 1)}, **({(0, 1, 2): 1} if N >= 3 else {})}))):
+        def fn():
+            import warnings
+            with warnings.catch_warnings():
+                warnings.simplefilter("ignore")
+                return f(M, num_anneals=1, initial_state=[1] * N, schedule=[0.0], in_order=False, seed=0)
+        res, log = tp.run([], fn)
+        out.append((f.__name__, log[0] if log else None))
+    return out
+
+
+def check_seam(case, st):
+    """rand_int(N) resp. rand_double as a function of the generator word, for every one of the 2^32 words."""
+    W = float(1 << 32)
+    if case["what"] == "double":
+        outs = _seam_run(["double"])
+        st.traces += 1 << 32
+        st.transitions += 1 << 32
+        st.nontrivial += 1
+        dev = max(o["max_abs_dev"] for o in outs)
+        nonmono = sum(o["non_monotone"] for o in outs) + sum(1 for a, b in zip(outs[:-1], outs[1:]) if b["min"] < a["max"])
+        st.extra["seam_rand_double"] = {"words": 1 << 32, "max_abs_deviation_from_word_times_2^-32": dev, "non_monotone_steps": nonmono,
+                                        "outside_unit_interval": sum(o["outside_unit"] for o in outs), "min": min(o["min"] for o in outs), "max": max(o["max"] for o in outs)}
+        if not (dev == dev) or (nonmono == 0 and dev > 1e-9):
+            # monotone in the word: P(u < p) = #{w: u(w) < p} / 2^32 is off by (about) the deviation for some p
+            w = [o["worst_word"] for o in outs if o["max_abs_dev"] == dev or not (o["max_abs_dev"] == o["max_abs_dev"])][0]
+            st.violation("seam|rand_double-law", case,
+                         "C12 rand_double is not uniform on [0,1): at generator word %d it deviates from word * 2^-32 by %r, so P(u < exp(-dE/T)) is not the acceptance "
+                         "probability (enumerated over all 2^32 words)" % (w, dev))
+        elif nonmono:
+            st.outcomes["seam: rand_double not monotone in the word -> law undecided here"] += 1
+        return
+    N = case["N"]
+    outs = _seam_run(["int", str(N)])
+    st.traces += 1 << 32
+    st.transitions += 1 << 32
+    st.nontrivial += 1
+    counts = [sum(o["counts"][i] for o in outs) for i in range(N)]
+    oor = sum(o["out_of_range"] for o in outs)
+    bounded = sum(o["via_bounded"] for o in outs)
+    law = [c / W for c in counts]
+    st.extra.setdefault("seam_rand_int", {})[str(N)] = {"words": 1 << 32, "counts": counts, "out_of_range": oor, "through_boundedrand": bounded,
+                                                       "multi_word_evaluations": sum(o["multi_word"] for o in outs)}
+    bad = None
+    if oor:
+        o = [o for o in outs if o["out_of_range"]][0]
+        bad = "returns %d (outside [0, %d)) at generator word %d, and for %d of the 2^32 words in total" % (o["first_oor_value"], N, o["first_oor_word"], oor)
+        kind = "out-of-range"
+    elif max(abs(p - 1.0 / N) for p in law) > 1e-8:
+        bad = "is not uniform: P(site = i) = %s over all 2^32 generator words" % ", ".join("%.6f" % p for p in law)
+        kind = "non-uniform"
+    if bad is None:
+        st.outcomes["seam: rand_int(%d) uniform over all words" % N] += 1
+        return
+    # is this what the kernels use for random visiting?  Compare the kernels' first request with the request rand_int makes.
+    style = (1, N) if bounded == (1 << 32) and not sum(o["bad_bound"] for o in outs) else ((0, 0) if bounded == 0 else None)
+    live = [name for name, first in _seam_probe(N) if first is not None and (style is None or tuple(first) == style)]
+    if not live:
+        st.outcomes["seam: rand_int(%d) %s but the kernels do not draw sites through it" % (N, kind)] += 1
+        return
+    st.violation("seam|rand_int-%s" % kind, case,
+                 "C12 random visiting (in_order=False) on %d spins: rand_int(rng, %d) %s; %s pick the site to update with it, so visiting is not uniformly random"
+                 % (N, N, bad, " and ".join(live)))
+
+
 def check(case, st):
+    try:
+        return check_(case, st)
+    except tapedfs.ReplayDivergence as e:
+        # identical call, identical generator words, different execution: the result is not a function of (arguments, seed)
+        st.violation("nondeterminism|%s" % case["part"], case,
+                     "C12 %s: two executions of the same call with the same generator output differ (%s) -- results cannot be reproducible from the seed"
+                     % ({k: v for k, v in case.items() if k != "part"}, str(e)[:300]))
+
+
+def check_(case, st):
     p = case["part"]
+    if p == "seam":
+        return check_seam(case, st)
     if p == "dist":
         check_dist(case, st)
     elif p == "distlocal":
@@ -614,6 +748,9 @@ def gen_cases(tier):
         yield from local_cases(tier)
         yield from joint_cases(tier)
         yield from zero_cases(tier)
+        yield {"part": "seam", "what": "double"}
+        for n in ((2, 3, 4, 5, 8) if tier == "quick" else range(2, 17)):
+            yield {"part": "seam", "what": "int", "N": n}
         yield {"part": "repro", "which": "plain"}
         for nm in ("chain3", "cubic3f", "qubo3"):
             yield {"part": "repro", "which": "scripted", "model": nm}
@@ -639,5 +776,7 @@ def replay(case):
     base = {k: v for k, v in case.items() if k not in ("start", "Ts", "order", "seed", "in_order") or case["part"] in ("dist", "distlocal", "joint")}
     if case["part"] == "repro":
         base = {k: case[k] for k in ("part", "which", "model") if k in case}
+    if case["part"] == "seam":
+        base = {k: case[k] for k in ("part", "what", "N") if k in case}
     check(base, st)
     return [(s, m) for s, c, m in st.viol]
